@@ -75,10 +75,15 @@ def lines_holds(l, i):
     w = l.split()
     if w[0] == "jsize":
         # SlotJustify::size_of(levels) on the implementation: the stride must keep every record aligned for its next pointer
-        m = re.match(r"size_of=(\d+) rec=(\d+) ptr=(\d+)", i)
+        m = re.match(r"size_of=(\d+) rec=(\d+) ptr=(\d+) params=(\d+)", i)
         if not m:
             return False, "no answer"
-        return int(m.group(1)) % int(m.group(3)) == 0, "the stride of the justification records is not a multiple of the pointer size: records are misaligned"
+        sz, rec, ptr, params = (int(x) for x in m.groups())
+        if sz % ptr:
+            return False, "the stride of the justification records is not a multiple of the pointer size: records are misaligned"
+        # a record is the struct (which holds values[0]) and levels * NUMJUSTPARAMS - 1 more int16 values; a font without levels is given one
+        need = rec + (max(int(w[1]), 1) * params - 1) * 2
+        return sz >= need, "the stride of the justification records (%d) is smaller than a record (%d bytes): records overlap" % (sz, need)
     ops = w[2:]
     if any(o[0] in "FL" for o in ops) or any(o.startswith("a-1") for o in ops):
         return None, ""
